@@ -65,8 +65,16 @@ def generate(seed, run, tier):
             ops.append(['mask'])
         else:
             ops.append(['stoch', r.choice(['real', 'uniform', 'first', 'last', 'mixed']), r.randrange(2**31)])
+    vis = None
+    if name == 'raytracing' and r.random() < 0.3:
+        # ray counts are integers: an absolute threshold in (0, 1] is the default ray-traced view
+        vis = {'name': 'raytracing', 'threshold': r.choice([1, 1.0, 0.5, 0.25, 0.99])}
+        if r.random() < 0.3:
+            vis['absolute_counts'] = True
+    elif name == 'partially_occluded' and r.random() < 0.2:
+        vis = {'name': 'partially_occluded'}
     return {'property': PROP, 'seed': seed, 'run': run, 'tier': tier, 'debug': r.random() < 0.5, 'world': world,
-            'obs': {'name': name, 'area': area}, 'via_factory': r.random() < 0.5, 'ops': ops,
+            'obs': {'name': name, 'area': area}, 'vis': vis, 'via_factory': r.random() < 0.5, 'ops': ops,
             'alias_objects': stream(seed, PROP, run, 'alias').random() < 0.15}
 
 
@@ -77,7 +85,9 @@ def execute(record, ctx):
     from gym_gridverse.state import State
 
     name, area = record['obs']['name'], record['obs']['area']
-    obs_f = V.mk_obs_function(name, area, record['via_factory'])
+    obs_f = V.mk_obs_function(name, area, record['via_factory'], record.get('vis'))
+    if record.get('vis'):
+        ctx.probe('from_visibility_with_built_visibility_function')
     state = mk_state(record['world'])
     vh, vw = M.view_shape(area)
     anchor = M.view_anchor(area)
